@@ -471,8 +471,10 @@ fn export_cases<K: Kmer>(out: &mut Out, rng: &mut Rng, g: &DebruijnGraph<K, u16>
         Some(json!({"k": k, "name": "dbg", "z": [1, {"a": null}, false]})),
         Some(json!({})),
         Some(json!(7)),
+        // keys that need escaping (finding F9, repaired: the key goes through serde_json)
+        Some(json!({"a\"b\\c": 1, "tab\there": [true]})),
     ];
-    let which = [0, 1 + rng.below(3)];
+    let which = [0, 1 + rng.below(4)];
     for w in which.iter() {
         let rest = rests[*w].clone();
         let rest_v: Vec<V> = match &rest {
